@@ -195,6 +195,31 @@ BUILD_CASES = {
         query_fields=["with_info"], args={"withInfo": {"n": "Int!"}},
         query="{ withInfo(n: 3) }", data={"withInfo": 3}, log="[('with_info', 3)]",
     ),
+    "param_default_object": dict(
+        src="@dataclass\nclass Box:\n    top_left: int = 0\n"
+        "def area(the_box: Box = Box(2)) -> int:\n    LOG.append(('area', the_box))\n    return the_box.top_left\n",
+        query_fields=["area"], args={"area": {"theBox": "BoxInput!"}},
+        query="{ area }", data={"area": 2}, log="[('area', Box(2))]",
+    ),
+    "none_as_undefined_output": dict(
+        src="from apischema.metadata import none_as_undefined\n@dataclass\nclass Nu:\n    x: Optional[int] = field(default=None, metadata=none_as_undefined)\n    y: int = 0\n"
+        "def nu() -> Nu:\n    LOG.append('nu')\n    return Nu()\n",
+        query_fields=["nu"], args={},
+        query="{ nu { x y } }", data={"nu": {"x": None, "y": 0}}, log="['nu']",
+    ),
+    "flatten_object_field": dict(
+        src="from apischema.metadata import flatten\n@dataclass\nclass Child:\n    c: int = 1\n@dataclass\nclass Mid:\n    child: Child = field(default_factory=Child)\n    m: int = 0\n"
+        "@dataclass\nclass Data:\n    mid: Mid = field(default_factory=Mid, metadata=flatten)\n"
+        "def data() -> Data:\n    LOG.append('data')\n    return Data()\n",
+        query_fields=["data"], args={},
+        query="{ data { m child { c } } }", data={"data": {"m": 0, "child": {"c": 1}}}, log="['data']",
+    ),
+    "flattened_and_plain": dict(
+        src="from apischema.metadata import flatten\n@dataclass\nclass Foo:\n    a: int = 0\n@dataclass\nclass Bar:\n    foo: Foo = field(default_factory=Foo, metadata=flatten)\n"
+        "def foo() -> Foo:\n    LOG.append('foo')\n    return Foo(1)\ndef bar() -> Bar:\n    LOG.append('bar')\n    return Bar(Foo(2))\n",
+        query_fields=["foo", "bar"], args={},
+        query="{ foo { a } bar { a } }", data={"foo": {"a": 1}, "bar": {"a": 2}}, log="['foo', 'bar']",
+    ),
     "info_middle": dict(
         src="def mid(a: int, info: graphql.GraphQLResolveInfo, b: Optional[int] = None) -> int:\n    LOG.append(('mid', a, b))\n    return a\n",
         query_fields=["mid"], args={"mid": {"a": "Int!", "b": "Int"}},
